@@ -22,18 +22,18 @@ def stack_height_bounded_Full : Prop :=
     frame set-up check passes at height 984 and the next 24 unchecked pushes reach index 1008 -/
 theorem stack_height_bounded_false : ¬ stack_height_bounded_Full := by
   intro h
-  have := h {} (stackprogOps 41 23)
+  have := h {} (stackprogOps 41 23 0)
   revert this
   decide
 
 /-- the same program one level shallower stays inside (the witness is minimal in depth) -/
-example : isCrash (srun {} { sp := -1, depth := 0 } (stackprogOps 40 23)) = false := by decide
+example : isCrash (srun {} { sp := -1, depth := 0 } (stackprogOps 40 23 0)) = false := by decide
 
 /-- non-vacuity of `stack_height_bounded_partial`: a script with bursts of at most five unchecked pushes -/
 example : burstOk 5 0 [.enter 2, .pushU 3, .pushC 1, .pushU 5, .pop 4, .enter 0, .pushU 2, .leave] = true := by decide
 
 /-- the witness script violates the side condition of the partial theorem -/
-example : burstOk 5 0 (stackprogOps 41 23) = false := by decide
+example : burstOk 5 0 (stackprogOps 41 23 0) = false := by decide
 
 /-! ## the logical bound `off < size` is false for F_INDEX on buffers -/
 
